@@ -83,6 +83,14 @@ def compare(ctx, draft, schema, inst, gate=True, tag="rand"):
     except Exception as e:
         ctx.count("impl_exception_delegated_to_C03")
         ctx.count("impl_exception:" + type(e).__name__)
+        from vf.props.c05 import _mentions, _plain_json, _is_valid_schema
+        from jsonschema import exceptions as _X
+        if not isinstance(e, (RecursionError, MemoryError, _X.UnknownType, _X.RefResolutionError)) and not _mentions(schema, ("$ref", "id", "$id")) and _plain_json(schema) and _plain_json(inst) \
+                and _is_valid_schema(draft, schema):
+            # the model has a verdict for this reference-free schema (accepted by the metaschema) over plain JSON; the
+            # implementation has none
+            ctx.violation("no-verdict", {"draft": draft, "schema": schema, "instance": inst},
+                          "%s: %s - the model says %s" % (type(e).__name__, str(e)[:120], "valid" if strict else "invalid"))
         return
     ctx.count("compared")
     ctx.count("compared:d%d" % draft)
